@@ -180,11 +180,11 @@ func vpC08Update(n, c int, maxPower int64) {
 	}
 }
 
-func VP_C08_Update_n1_c1() { vpC08Update(1, 1, 1<<12) }
-func VP_C08_Update_n2_c1() { vpC08Update(2, 1, 1<<12) }
-func VP_C08_Update_n2_c2() { vpC08Update(2, 2, 1<<12) }
-func VP_C08_Update_n3_c2() { vpC08Update(3, 2, 1<<12) }
-func VP_C08_Update_n3_c3() { vpC08Update(3, 3, 1<<12) }
+func VP_C08_Update_n1_c1()     { vpC08Update(1, 1, 1<<12) }
+func VP_C08_Update_n2_c1()     { vpC08Update(2, 1, 1<<12) }
+func VP_C08_Update_n2_c2()     { vpC08Update(2, 2, 1<<12) }
+func VP_C08_Update_n3_c2()     { vpC08Update(3, 2, 1<<12) }
+func VP_C08_Update_n3_c3()     { vpC08Update(3, 3, 1<<12) }
 func VP_C08_Update_n2_c2_big() { vpC08Update(2, 2, MaxTotalVotingPower) }
 
 // C08-H2: proposer rotation is the specified weighted round-robin:
@@ -240,9 +240,59 @@ func vpC08Rotation(n int, maxPower int64, steps int) {
 	}
 }
 
-func VP_C08_Rotation_n2_T3() { vpC08Rotation(2, 3, 3) }
-func VP_C08_Rotation_n2_T4() { vpC08Rotation(2, 4, 4) }
-func VP_C08_Rotation_n3_T4() { vpC08Rotation(3, 4, 4) }
-func VP_C08_Rotation_n3_T5() { vpC08Rotation(3, 5, 5) }
-func VP_C08_Rotation_n3_T6() { vpC08Rotation(3, 6, 6) }
+func VP_C08_Rotation_n2_T3()  { vpC08Rotation(2, 3, 3) }
+func VP_C08_Rotation_n2_T4()  { vpC08Rotation(2, 4, 4) }
+func VP_C08_Rotation_n3_T4()  { vpC08Rotation(3, 4, 4) }
+func VP_C08_Rotation_n3_T5()  { vpC08Rotation(3, 5, 5) }
+func VP_C08_Rotation_n3_T6()  { vpC08Rotation(3, 6, 6) }
 func VP_C08_Rotation_n2_big() { vpC08Rotation(2, MaxTotalVotingPower, 3) }
+
+// C08-H2b: the rescaling step of the specification: when the spread of the priorities exceeds the
+// window, every priority is divided (towards zero) by ceil(spread / window); otherwise nothing changes.
+func vpC08Rescale(n int) {
+	vals := make([]*Validator, n)
+	pre := make([]int64, n)
+	for i := range vals {
+		vals[i] = vpVal(i, 1)
+		p := vp.Int64("priority")
+		vp.Assume(vp.And(p >= -24, p <= 24))
+		vals[i].ProposerPriority = p
+		pre[i] = p
+	}
+	vs := &ValidatorSet{Validators: vals}
+	window := int64(vp.Range("window", 1, 8))
+	hi, lo := pre[0], pre[0]
+	for _, p := range pre[1:] {
+		if p > hi {
+			hi = p
+		}
+		if p < lo {
+			lo = p
+		}
+	}
+	spread := hi - lo
+	vs.RescalePriorities(window)
+	if spread <= window {
+		vp.Reach("within-window")
+		for i := range pre {
+			vp.Assert(vs.Validators[i].ProposerPriority == pre[i], "C08.rescale.priorities-within-the-window-are-untouched")
+		}
+		return
+	}
+	// the specified ratio: the least r with r*window >= spread
+	ratio := int64(0)
+	for r := int64(2); r <= 48; r++ {
+		if (r-1)*window < spread && spread <= r*window {
+			ratio = r
+			break
+		}
+	}
+	vp.Assert(ratio >= 2, "C08.rescale.reference-ratio-found")
+	vp.Reach("rescaled")
+	for i := range pre {
+		vp.Assert(vs.Validators[i].ProposerPriority == pre[i]/ratio, "C08.rescale.priorities-are-divided-by-the-ceiling-of-spread-over-window")
+	}
+}
+
+func VP_C08_Rescale_n2() { vpC08Rescale(2) }
+func VP_C08_Rescale_n3() { vpC08Rescale(3) }
